@@ -157,11 +157,6 @@ int evutil_read_file_(const char *filename, char **content_out, size_t *len_out,
 	return 0;
 }
 
-#ifdef C39_CUT_LINE_PARSERS
-/* harness_file: the per-line routines are replaced by recorders (they are decided by harness_resolv / harness_hosts) */
-#define resolv_conf_parse_line real_resolv_conf_parse_line
-#define evdns_base_parse_hosts_line real_evdns_base_parse_hosts_line
-#endif
 #ifndef C39_N
 #define C39_N 12
 #endif
@@ -169,10 +164,6 @@ int evutil_read_file_(const char *filename, char **content_out, size_t *len_out,
 #include "dns_typed_alloc_pre.h"
 #include "evdns.c"
 #include "dns_typed_alloc_post.h"
-#ifdef C39_CUT_LINE_PARSERS
-#undef resolv_conf_parse_line
-#undef evdns_base_parse_hosts_line
-#endif
 #include "dnsconf_ref.h"
 
 #ifndef C39_N
@@ -638,14 +629,16 @@ void harness_hosts(void)
 #ifdef C39_CUT_LINE_PARSERS
 #define C39_MAXLINES (C39_N + 2)
 static char *c39_line_ptr[C39_MAXLINES]; static int c39_lines, c39_line_flags_ok = 1, c39_want_flags;
-static void resolv_conf_parse_line(struct evdns_base *base, char *const start, int flags)
+/* harness_file: the per-line routines (decided by harness_resolv / harness_hosts) are replaced by these recorders
+ * with goto-instrument --replace-calls */
+void c39_line_rec(struct evdns_base *base, char *const start, int flags)
 {
 	(void)base;
 	VP_ASSERT(c39_lines < C39_MAXLINES, "harness: too many lines");
 	if (flags != c39_want_flags) c39_line_flags_ok = 0;
 	c39_line_ptr[c39_lines++] = start;
 }
-static int evdns_base_parse_hosts_line(struct evdns_base *base, char *line)
+int c39_hline_rec(struct evdns_base *base, char *line)
 {
 	(void)base;
 	VP_ASSERT(c39_lines < C39_MAXLINES, "harness: too many lines");
@@ -657,7 +650,11 @@ static int evdns_base_parse_hosts_line(struct evdns_base *base, char *line)
 void harness_file(void)
 {
 	struct evdns_base *base = evdns_base_new(NULL, 0);
-	size_t len; char *buf, copy[C39_N + 1]; int i, r, nl = 0, pos, hosts = vp_bool(), flags, ndots = (int)vp_range(0, 9);
+#ifndef C39_HOSTS
+#define C39_HOSTS 0
+#endif
+	size_t len; char *buf, copy[C39_N + 1];
+	const int hosts = C39_HOSTS; int i, r, nl = 0, pos, flags, ndots = (int)vp_range(0, 9);
 	__CPROVER_assume(base != NULL);
 	evdns_base_search_ndots_set(base, ndots);   /* as an earlier `options ndots:n` line (or the API) left it */
 	buf = c39_string(C39_N, &len);
